@@ -141,7 +141,8 @@ func init() {
 			ID: "C02",
 			Runs: []Run{
 				{Harness: "zzverif/zzh.ZZC02Basic", Desc: "every instantiation form (T{}, &T{}, elided slice/map element, new(T), var x T, var x,y T) and the negatives (*T var, blank, initialised var, unannotated type), inside/outside the listed constructors, package-level vars before/after a constructor; constructor list spelling symbolic", Bounds: map[string]interface{}{"skeleton": "c02SrcA", "holes": 1}},
-				{Harness: "zzverif/zzh.ZZCrossImmCtor", Desc: "instantiations in the importing package, incl. inside a same-named function of the importer", Bounds: map[string]interface{}{"skeleton": "crossSrc{D,U}", "holes": 4}},
+				{Harness: "zzverif/zzh.ZZC02Forms", Desc: "two-file package whose second file never spells the annotated type: alias (T{}, new, var), named slice / pointer-map types with elided elements, []*T / map[K]*T elided pointer elements, arrays, nested literals, literals as field values, new((T)), closures inside a constructor, a constructor in the other file, init, generic function, method, nested blocks, go/defer closures, package-level vars; constructor list symbolic over 4 spellings", Bounds: map[string]interface{}{"skeleton": "c02SrcF1+F2", "sites": 25, "list_spellings": 4}},
+				{Harness: "zzverif/zzh.ZZCrossImmCtor", Desc: "instantiations in the importing package (T{}, new(T), var), incl. all three forms inside a same-named function of the importer", Bounds: map[string]interface{}{"skeleton": "crossSrc{D,U}", "holes": 4}},
 			},
 			Outside:     []string{"generics; type parameters; struct embedding of the annotated type; reflect-based instantiation"},
 			Assumptions: []string{"program skeletons parsed/type-checked by go/parser + go/types; facts passed in-process"},
@@ -173,6 +174,7 @@ func init() {
 				{Harness: "packageonly.ZZC04Kernel2", Desc: "allow-list decision kernel (find{Type,Function,Method}Violation over util.AttachmentsMap) for ARBITRARY allow-list entries and an arbitrary user package path and name (opaque atoms): up to two @packageonly lines on items of two declaring packages (kind, package, item and receiver from a two-name alphabet, 1-2 entries each plus the declaring package), one scoped marker (6 tokens, any range), already-reported flag; violation iff annotated, foreign, neither path nor name in the UNION of the item's lists, not suppressed, not yet reported", Bounds: map[string]interface{}{"annotation_lines": "0..2", "entries_per_line": "1..2 + declaring package", "names": "2-letter alphabet for items, atoms for entries/user"}},
 				{Harness: "packageonly.ZZC04Kernel3", Tier: "thorough", Desc: "the same with up to three lines (93 k paths)", Bounds: map[string]interface{}{"annotation_lines": "0..3"}},
 				{Harness: "zzverif/zzh.ZZC04Cross", Desc: "references from package u (path zzmod/u, name u) to @packageonly type/function/method of d: call, method call, method value, type in parameter/literal/var/field; allow-list shapes symbolic (bare, by name, by path, several entries + trailing comma, second annotation line = union, look-alike names, absent); same-package uses in d", Bounds: map[string]interface{}{"skeleton": "c04SrcD + c04SrcU", "holes": 4, "allow_list_spellings": "6 x 3 x 5 x 4"}},
+				{Harness: "zzverif/zzh.ZZC04Names", Desc: "two types of d with a method of the SAME name plus a function of that name, each with its own allow-list (5 holes, 960 spelling combinations); a user package that shares d's package NAME under another path (allowed only by 'd' or its full path), a user file WITHOUT import declarations reaching restricted methods through variables of a sibling file, method expression (*dd.T).M, renamed import", Bounds: map[string]interface{}{"skeleton": "c04Src{D2,U1,U3,W}", "holes": 5}},
 			},
 			Outside:     []string{"dot-imports; generic items; references through type aliases (see C13)"},
 			Assumptions: []string{"program skeletons parsed/type-checked by go/parser + go/types; facts passed in-process"},
@@ -288,6 +290,7 @@ func init() {
 				{Harness: "zzverif/zzh.ZZC10StressImm", Desc: "the same with the struct S fixed @immutable and any one other declaration (its embedded field, methods, generic function, imported package) carrying any spelling", Bounds: map[string]interface{}{"declarations": 11, "annotated_at_a_time": "S + 1"}},
 				{Harness: "zzverif/zzh.ZZC10Stress2", Tier: "thorough", Desc: "the same with any two declarations annotated", Bounds: map[string]interface{}{"annotated_at_a_time": 2}},
 				{Harness: "zzverif/zzh.ZZC01Init", Desc: "package-level initialisers before any function (the nil-dereference fixed in b62e6d5)", Bounds: map[string]interface{}{}},
+				{Harness: "zzverif/zzh.ZZC10Lines", Desc: "generated-code shapes: //line directives (line beyond the physical file, other file name, /*line f:l:c*/ form), trailing / free-standing / in-function comments, locally shadowed builtins called without arguments (new, make, len), a violation on the last line of a file without final newline; readable sources so that excerpt rendering runs; ANY of 6 spellings in any two of 9 comments (the LineStart panic fixed in 946698e)", Bounds: map[string]interface{}{"comments": 9, "annotated_at_a_time": 2, "spellings": 6}},
 			},
 			Outside:     []string{"any compilable package beyond the listed skeletons (real-world corpora are not a solver task)", "wall-clock hangs inside the x/tools drivers", "cgo"},
 			Assumptions: []string{"no-panic, in-range indexing, successful type assertions, no nil-map writes and the unwinding assertions are implicit assertions on EVERY path of EVERY harness of every property; this check adds programs built to provoke them"},
